@@ -64,3 +64,7 @@ GR_RULE = ("one GR-capable neighbour (GR on/off, restart time 10..120 s, N bit, 
 PROP_INFO["C12"] = {"level": "exploration", "rule": GR_RULE, "probes": ["loss_graceful_reset", "loss_graceful_close", "loss_graceful_holdexp", "loss_graceful_notif", "loss_nongraceful_reset", "loss_nongraceful_notif", "loss_nongraceful_hardreset", "loss_nongraceful_shutdown"], "budget": {"quick": 60, "thorough": 1200}}
 SUITES["C12"] = {"quick": [{"family": "gr", "mode": "", "share": 2}, {"family": "gr", "mode": "llgr", "share": 1}], "thorough": [{"family": "gr", "mode": "", "share": 2}, {"family": "gr", "mode": "llgr", "share": 1}]}
 ALL_FAMILIES += [("gr", ""), ("gr", "llgr")]
+
+PROP_INFO["C11"] = {"level": "exploration", "rule": WORLD_RULE + " Mode pack: announcements carry padded COMMUNITIES (10..9000 entries, around the 255-octet and 4096-octet boundaries; beyond 4096 only from extended-message neighbours), bursts of 50..2100 prefixes sharing one attribute set, so that the coalescing sender packs schedule-dependent batches; framing, per-message size limit and the C01 view equality are checked, and a route whose single-route UPDATE exceeds a session's maximum must simply be absent there.", "probes": ["burst", "oversize_route_for_session"], "budget": {"quick": 60, "thorough": 1200}}
+SUITES["C11"] = {"quick": [{"family": "world", "mode": "pack", "share": 1}], "thorough": [{"family": "world", "mode": "pack", "share": 1}]}
+ALL_FAMILIES += [("world", "pack")]
